@@ -99,9 +99,34 @@ def variant_sharing_cases(ctx):
         do_case(ctx, {"ast": a})
 
 
+def accepted_mutants(ctx):
+    """models mutated the way C10's adversarial stream does (second definitions of an id, duplicated children, …): the
+    unchanged errors() rejects every one that is not well-defined, so none of those reaches this check; if validation
+    starts to accept some, they are validated models and the statement must hold for them too"""
+    from props.c10 import mutate
+    for _ in range(60 if ctx.quick else 400):
+        a, o, t = gen_valid(ctx.rng, ctx.quick, twins=False)
+        m, op = mutate(ctx.rng, a)
+        try:
+            om = build(m)
+            if is_var(om) or om.errors():
+                continue
+            tm = snap(om)
+        except Exception:
+            continue
+        leaf_ids = {n["id"] for n in subs(tm) if n["k"] == "leaf"}
+        if leaf_ids & set(compound_ids(tm)) or not free01(tm):
+            continue                        # reference models are outside C01-C08 (DESIGN §4)
+        if well_formed(tm):
+            continue                        # a well-defined model: the ordinary streams cover those
+        ctx.tags["ill-defined-model-accepted-by-errors"] += 1
+        do_case(ctx, {"ast": m})
+
+
 def run(ctx):
     small_scope_cases(ctx)
     variant_sharing_cases(ctx)
+    accepted_mutants(ctx)
     n_models = (400 if ctx.quick else 2000) * (3 if ctx.search else 1)
     for _ in range(n_models):
         a, o, t = gen_valid(ctx.rng, ctx.quick)
